@@ -110,6 +110,35 @@ MUTANTS += [
              "                                                              self.compressed_data_diskblocks * self.block_bytes)")]),
 ]
 
+MUTANTS += [
+    # ---------------------------------------------------------------- C15
+    ('c15_zslice_key_drops_id', 'C15', 'z-slice cache keyed without the slice id (same block, other unit -> stale)', [
+        (LD, "    @lru_cache(maxsize=1)\n    def read_and_decompress_zslice_set(self, blocks_per_dim, zslice_first_block_offset, zslice_id):\n",
+             "    def read_and_decompress_zslice_set(self, blocks_per_dim, zslice_first_block_offset, zslice_id):\n"
+             "        self._zslice_id = zslice_id\n        return self._zslice_set(blocks_per_dim, zslice_first_block_offset)\n\n"
+             "    @lru_cache(maxsize=1)\n    def _zslice_set(self, blocks_per_dim, zslice_first_block_offset):\n        zslice_id = self._zslice_id\n")]),
+    ('c15_chunk_key_drops_z', 'C15', 'trace chunk LRU keyed on the column only, not on the sample window', [
+        (RD, "            chunk = self._read_containing_chunk_cached(min_il, min_xl, min_z, max_z)\n",
+             "            self._chunk_z = (min_z, max_z)\n            chunk = self._read_containing_chunk_cached(min_il, min_xl)\n"),
+        (RD, "    def _read_containing_chunk(self, ref_il, ref_xl, min_z, max_z):\n",
+             "    def _read_containing_chunk(self, ref_il, ref_xl):\n        min_z, max_z = self._chunk_z\n")]),
+    ('c15_padding_mode_sticky', 'C15', 'padding mode of the first header/tracefield call is kept (the original defect)', [
+        (RD, "        if not self.structured and self.include_padding not in (None, include_padding):\n            self.clear_variant_headers()\n", "")]),
+    ('c15_preload_one_block_short', 'C15', 'preload caches one disk block less than the data section', [
+        (LD, "                                                          self.compressed_data_diskblocks * self.block_bytes)",
+             "                                                          (self.compressed_data_diskblocks - 1) * self.block_bytes)")]),
+    ('c15_sequential_read_shortcut', 'C15', 'loader skips the seek when it believes the handle is already positioned', [
+        (LD, "            return self.file.read_range(self.file, self.data_start_bytes + offset, length_bytes)",
+             "            if self.local and getattr(self, '_next_pos', None) == self.data_start_bytes + offset:\n"
+             "                data = self.file.read(length_bytes)\n            else:\n"
+             "                data = self.file.read_range(self.file, self.data_start_bytes + offset, length_bytes)\n"
+             "            self._next_pos = self.data_start_bytes + offset + length_bytes\n            return data")]),
+    ('c15_partial_headers_marked_complete', 'C15', 'one loaded tracefield marks the header cache as complete', [
+        (RD, "        tracefild_list = self.segy_traceheader_template if tracefields is None else tracefields\n",
+             "        if getattr(self, '_headers_loaded', False):\n            return\n        self._headers_loaded = True\n"
+             "        tracefild_list = self.segy_traceheader_template if tracefields is None else tracefields\n")]),
+]
+
 
 def apply(mutant, root):
     for rel, old, new in mutant[3]:
